@@ -43,15 +43,23 @@ type Scenario interface {
 
 // Limits bounds one exploration.
 type Limits struct {
-	// MaxBound is the largest preemption bound tried.
+	// Exhaust asks for the complete schedule space first (no preemption
+	// bound), giving up after MaxExecs executions.
+	Exhaust bool
+	// MaxBound is the largest preemption bound tried when the space is not
+	// exhausted (iterative: 0, 1, ..., MaxBound).
 	MaxBound int
-	// MaxExecs stops raising the bound once a bound needed more executions.
+	// MaxExecs caps the exhaustive attempt and stops raising the bound once a
+	// bound needed more executions.
 	MaxExecs int64
 }
+
+const unbounded = 1 << 30
 
 type replayDoc struct {
 	Scenario json.RawMessage `json:"scenario"`
 	Choices  []int           `json:"choices"`
+	Crash    bool            `json:"crash,omitempty"`
 }
 
 func std(ex *verifsched.Exec) (vs []Viol) {
@@ -110,7 +118,10 @@ func runOnce(sc Scenario, ch *explore.Chooser, trace bool) (out Outcome, ex *ver
 	return out, ex
 }
 
-// Explore explores sc with iterative preemption bounding.
+// Explore explores sc: the complete schedule space if lim.Exhaust and the cap
+// allows, otherwise iterative preemption bounding up to lim.MaxBound.  A
+// violation found by the exhaustive pass is searched again with iterative
+// bounding so that the reported witness has the fewest preemptions.
 func Explore(c *runlib.Ctx, sc Scenario, lim Limits) {
 	class := sc.Class()
 	var last Outcome
@@ -120,48 +131,94 @@ func Explore(c *runlib.Ctx, sc Scenario, lim Limits) {
 		runlib.EngineErrorf("marshal scenario: %v", err)
 	}
 
-	c.InFlight(string(descJSON))
+	c.Checkpoint(string(descJSON))
 
-	exhausted := false
-	completed := -1
-	var execs, points int64
-	for b := 0; b <= lim.MaxBound; b++ {
-		st := explore.Run(b, func(ch *explore.Chooser) {
+	var execs int64
+	pass := func(bound int, report bool, capExecs int64) (st explore.Stats, violated, capped bool) {
+		var n int64
+		st = explore.Run(bound, func(ch *explore.Chooser) {
 			last, _ = runOnce(sc, ch, false)
 		}, func(ch *explore.Chooser) bool {
 			c.Eval()
+			n++
 			if _, ok := distinct[last.History]; !ok {
 				distinct[last.History] = struct{}{}
 				c.NontrivialKey(string(descJSON) + "|" + last.History)
 			}
 
-			for _, v := range last.Viols {
-				c.Violation(class+"/"+v.Kind, fmt.Sprintf("%s: %s (scenario %s, choices %v)", v.Kind, v.What, descJSON, ch.Choices),
-					replayDoc{Scenario: descJSON, Choices: append([]int(nil), ch.Choices...)})
+			if len(last.Viols) > 0 {
+				violated = true
+				if report {
+					for _, v := range last.Viols {
+						c.Violation(class+"/"+v.Kind,
+							fmt.Sprintf("%s: %s (scenario %s, choices %v)", v.Kind, v.What, descJSON, ch.Choices),
+							replayDoc{Scenario: descJSON, Choices: append([]int(nil), ch.Choices...)})
+					}
+				}
+
+				return true
 			}
 
-			return len(last.Viols) > 0 || c.OutOfBudget()
+			if capExecs > 0 && n > capExecs {
+				capped = true
+
+				return true
+			}
+
+			return c.OutOfBudget()
 		})
 		execs += st.Executions
-		points += st.Points
 		c.Count("schedule_points", st.Points)
-		if st.Stopped {
-			if c.OutOfBudget() {
-				c.NotExhaustive("time budget reached in class " + class)
+
+		return st, violated, capped
+	}
+
+	exhausted := false
+	completed := -1
+	needIter := true
+	if lim.Exhaust {
+		st, violated, capped := pass(unbounded, false, lim.MaxExecs)
+		switch {
+		case violated:
+			// Fall through to the iterative search for a minimal witness.
+		case capped:
+			c.Count("scenarios_cap_hit:"+class, 1)
+		case st.Stopped:
+			c.NotExhaustive("time budget reached in class " + class)
+			needIter = false
+		default:
+			exhausted = true
+			needIter = false
+		}
+	}
+
+	if needIter {
+		for b := 0; b <= lim.MaxBound || (lim.Exhaust && b < 64); b++ {
+			st, violated, capped := pass(b, true, 4*lim.MaxExecs)
+			if violated {
+				break
 			}
 
-			break
-		}
+			if st.Stopped && !capped {
+				c.NotExhaustive("time budget reached in class " + class)
 
-		completed = b
-		if st.Skipped == 0 {
-			exhausted = true
+				break
+			}
 
-			break
-		}
+			if capped {
+				break
+			}
 
-		if st.Executions > lim.MaxExecs {
-			break
+			completed = b
+			if st.Skipped == 0 {
+				exhausted = true
+
+				break
+			}
+
+			if b >= lim.MaxBound {
+				break
+			}
 		}
 	}
 
@@ -170,12 +227,8 @@ func Explore(c *runlib.Ctx, sc Scenario, lim Limits) {
 	if exhausted {
 		c.Count("scenarios_exhausted", 1)
 		c.Count("scenarios_exhausted:"+class, 1)
-		c.CountMax("max_bound_needed_to_exhaust:"+class, int64(completed))
 	} else {
-		c.Count("scenarios_bounded:"+class, 1)
-		// Keep the smallest completed bound of the class: stored negated so
-		// that the driver's max-merge yields the minimum.
-		c.CountMax("max_neg_min_completed_bound:"+class, int64(-completed))
+		c.Count(fmt.Sprintf("scenarios_bounded_at_%d:%s", completed, class), 1)
 	}
 
 	if len(distinct) == 1 && execs > 1 {
@@ -199,6 +252,15 @@ func Replay(c *runlib.Ctx, raw json.RawMessage, build func(desc json.RawMessage)
 	}
 
 	sc := build(doc.Scenario)
+	if doc.Choices == nil && doc.Crash {
+		// Witness of a hard crash: the schedule is unknown, explore the
+		// scenario again (the crash, if it reproduces, kills this process and
+		// the driver takes that as the reproduction).
+		Explore(c, sc, Limits{Exhaust: true, MaxBound: 3, MaxExecs: 2_000_000})
+
+		return
+	}
+
 	o1, ex1 := runOnce(sc, explore.NewChooser(doc.Choices), true)
 	o2, ex2 := runOnce(sc, explore.NewChooser(doc.Choices), true)
 	if strings.Join(ex1.Trace, " ") != strings.Join(ex2.Trace, " ") || o1.History != o2.History {
